@@ -310,6 +310,7 @@ def main(argv=None):
         "inconclusive": agg["inconclusive"][:10],
         "worker_failures": len(harness_errors),
         "shards": len(shards),
+        "observed_sets": {k: sorted(v, key=repr)[:30] for k, v in agg["sets"].items()},
         "repo_imported_from": where,
     }
     coverage.update(cov)
